@@ -35,9 +35,10 @@ def _match(clause: str, case: Any):
     return None
 TRUSTED = [
     "Lean 4.33.0 kernel; axioms propext / Classical.choice / Quot.sound only (audited by #print axioms)",
-    "harness/serial_corr.py: flattens classes to leaf fields, builds messages through the validated field API",
-    "Python's json module (dumps/loads inverse on the value tree incl. NaN, -0.0, control characters): exercised, not modelled",
-    "ctypes from_buffer_copy / bytes(): value semantics in the model, aliasing checked on the implementation",
+    "harness/serial_corr.py: class descriptors from _fields_ and ctypes offsets, messages built through the validated field API, "
+    "tokenisation of dictionaries, storage scripts on real ctypes objects",
+    "Python's float repr / float(): opaque; tokens are supplied per case and checked against the JSON float grammar",
+    "ctypes from_buffer_copy / bytes(): fresh allocation is the model's assumption, compared with real objects on random scripts",
 ]
 
 STYLES = ["default", "lo", "hi", "zero", "nan", "sparse", "rnd", "rnd", "rnd"]
@@ -154,7 +155,10 @@ def run(res: C.Result, deep: bool):
                 "field per validator kind / width / nesting; each built through the validated field API in styles: default, all-min, "
                 "all-max, -0.0/long-then-empty strings, NaN, sparse, random (strings: a long value then a shorter one; control "
                 "characters, quotes; byte arrays all-0x00 / all-0xFF); trips: bytes, dict, json, minified json, dict through json "
-                "text, header+data json (version = hash and 0), copy; version probes {0, hash, hash^1, hash+1, 1, 0xFFFFFFFF}")
+                "text, header+data json (version = hash and 0), copy; version probes {0, hash, hash^1, hash+1, 1, 0xFFFFFFFF}; "
+                "model correspondence per case: whole to_dict(), from_dict on the dictionary / its json.loads image / altered "
+                "dictionaries, well-formedness of the built bytes, JSON text (both layouts, data alone and header+data), "
+                "fromJson, a random storage script; header+data JSON with the time-code header as a case of its own (C10-F3)")
 
 
 def replay(body: Dict[str, Any]) -> int:
